@@ -418,6 +418,7 @@ class Run:
         self.leak = []
         self.logged = None
         self.raised = None
+        self.empty_after_final = None
         self.final_queue = None
         self.queue_consistent = None
         self.log1 = None
@@ -551,6 +552,12 @@ class Run:
                     pass
             elif k == 'stop':
                 c.stop()
+            elif k == 'cmdperiod':
+                from sc3.base import systemactions as sac
+                sac.CmdPeriod.free_servers = False
+                t0 = real_now()
+                sac.CmdPeriod.run()
+                self.scheds.append([who, None, 'clear', None, t0, real_now()])
             elif k == 'sched_x':
                 # explicit edge values for the delay: 'i0' 'f0' 'nf0' 'none' 'inf'
                 val = {'i0': 0, 'f0': 0.0, 'nf0': -0.0, 'none': None, 'inf': float('inf'), 'nan': float('nan'), 'false': False}[op[2]]
@@ -748,6 +755,8 @@ class Run:
             self.cut([])
             cid = 'tempo%d' % sc.get('index', 0)
             self.clock = new_tempo(float(Fraction(*sc.get('tempo', [1, 1]))), cid)
+            if sc.get('permanent'):
+                self.clock.permanent = True
             # the scenario starts when the new clock thread sits in its first wait (start-up
             # interleavings -- clients acting before the thread first takes the lock -- are not modelled)
             if PROXIES:
@@ -788,6 +797,7 @@ class Run:
         q = c._scheduler.queue if kind == 'app' else c._task_queue
         t_end = time.time() + sc.get('horizon', 1.0)
         final = sc.get('final', 'drain')
+        stops = final in ('stop', 'stop_all') or (final == 'cmdperiod' and kind == 'tempo' and not sc.get('permanent'))
         if final == 'drain':
             while time.time() < t_end:
                 with main._main_lock:
@@ -807,6 +817,17 @@ class Run:
                 time.sleep(sc.get('before_final', 0.03))
             if final == 'clear':
                 c.clear()
+            elif final == 'cmdperiod':
+                # the library's panic action: documented to clear ALL clocks' queues and stop the non permanent
+                # TempoClocks (servers are left alone here)
+                from sc3.base import systemactions as sac
+                sac.CmdPeriod.free_servers = False
+                sac.CmdPeriod.run()
+                if stops:
+                    wait_for(lambda: c._thread is None, 5)
+            elif final == 'stop_all':
+                clk.TempoClock.stop_all()
+                wait_for(lambda: c._thread is None, 5)
             elif final == 'stop':
                 if kind == 'tempo':
                     c.stop()
@@ -816,6 +837,8 @@ class Run:
                 else:
                     c._stop()
             self.final_done_at = real_now()
+            with main._main_lock:           # direct observation, no timing: nothing is pending after it returned
+                self.empty_after_final = bool(q.empty())
             time.sleep(sc.get('after_final', 0.12))
         time.sleep(0.02)
         alive = None
@@ -825,9 +848,9 @@ class Run:
             alive = c._thread.is_alive()
         # the clock must still be responsive: a probe scheduled now runs (generous wait; liveness is assumed,
         # this only tells a dead / wedged thread from a working one)
-        if final != 'stop' and not sc.get('expect_dead') and not alive:
+        if not stops and not sc.get('expect_dead') and not alive:
             self.responsive = False
-        elif final != 'stop' and not sc.get('expect_dead'):
+        elif not stops and not sc.get('expect_dead'):
             self.tasks[0] = self.make_task(0, {'results': [['none']]})
             try:
                 if kind == 'app':
@@ -851,7 +874,7 @@ class Run:
                 self.leak.append('main._in_awake_call is still set')
         # snapshot of the real queue, with the log up to here (two-site check: model queue vs real queue)
         self.snapshot(cid, kind)
-        if kind == 'tempo' and final != 'stop':
+        if kind == 'tempo' and not stops:
             try:
                 c.stop()
             except Exception:
@@ -870,7 +893,9 @@ class Run:
                 'alive': alive, 'window': window, 'problems': list(PROBLEMS),
                 'final_done_at': self.final_done_at, 'async_not_run': self.not_run,
                 'responsive': self.responsive, 'final_queue': self.final_queue, 'leak': self.leak,
-                'logged': self.logged, 'raised': self.raised,
+                'logged': self.logged, 'raised': self.raised, 'empty_after_final': self.empty_after_final,
+                'stops': bool(sc.get('final') in ('stop', 'stop_all') or (sc.get('final') == 'cmdperiod' and kind == 'tempo'
+                                                                          and not sc.get('permanent'))),
                 'n_log1': len([e for e in self.log1 if e[0] == cid]), 'queue_consistent': self.queue_consistent}
 
     def client(self, i, ops):
